@@ -102,9 +102,13 @@ namespace BitSerializer::Convert::Detail
 		{
 			if constexpr (TDivRatio::num == 1)
 			{
-				const auto v = static_cast<TTargetRep>(static_cast<TOpRep>(duration.count()) / static_cast<TOpRep>(TDivRatio::den));
-				if (static_cast<TRep>(v * TDivRatio::den) != duration.count()) {
+				const auto quotient = static_cast<TOpRep>(duration.count()) / static_cast<TOpRep>(TDivRatio::den);
+				if (static_cast<TOpRep>(duration.count()) % static_cast<TOpRep>(TDivRatio::den) != 0) {
 					throw std::out_of_range("Precision of target duration is not enough");
+				}
+				const auto v = static_cast<TTargetRep>(quotient);
+				if (quotient != static_cast<TOpRep>(v) || (quotient > 0 && v < 0) || (quotient < 0 && v > 0)) {
+					throw std::out_of_range("Target duration is not enough");
 				}
 				return TTarget(v);
 			}
